@@ -56,30 +56,47 @@ pub fn filter() -> BoxedStrategy<Filter> {
         id_list(),
         id_list(),
         id_list(),
-        (-1i64..=1, -1i64..=1, prop::sample::select(vec![0u8, 0, 0, 0, 0, 0, 1, 2, 3, 4, 5])),
+        (
+            -1i64..=1,
+            -1i64..=1,
+            prop::sample::select(vec![0u8, 0, 0, 0, 0, 0, 1, 2, 3, 4, 5]),
+        ),
     )
-        .prop_map(|(min_log_level, app_ids, ecu_ids, context_ids, (da, dc, special))| {
-            let set_len = |l: &Option<Vec<String>>| l.as_ref().map(|v| v.iter().collect::<std::collections::BTreeSet<_>>().len() as i64).unwrap_or(0);
-            let (mut a, mut c) = (set_len(&app_ids) + da, set_len(&context_ids) + dc);
-            match special {
-                1 => a = 0,
-                2 => c = -5,
-                3 => {
-                    a = 1000;
-                    c = i64::MAX
+        .prop_map(
+            |(min_log_level, app_ids, ecu_ids, context_ids, (da, dc, special))| {
+                let set_len = |l: &Option<Vec<String>>| {
+                    l.as_ref()
+                        .map(|v| v.iter().collect::<std::collections::BTreeSet<_>>().len() as i64)
+                        .unwrap_or(0)
+                };
+                let (mut a, mut c) = (set_len(&app_ids) + da, set_len(&context_ids) + dc);
+                match special {
+                    1 => a = 0,
+                    2 => c = -5,
+                    3 => {
+                        a = 1000;
+                        c = i64::MAX
+                    }
+                    4 => {
+                        a = i64::MIN;
+                        c = i64::MIN + 1
+                    }
+                    5 => {
+                        a = i64::MAX;
+                        c = i64::MIN
+                    }
+                    _ => {}
                 }
-                4 => {
-                    a = i64::MIN;
-                    c = i64::MIN + 1
+                Filter {
+                    min_log_level,
+                    app_ids,
+                    ecu_ids,
+                    context_ids,
+                    app_id_count: a,
+                    context_id_count: c,
                 }
-                5 => {
-                    a = i64::MAX;
-                    c = i64::MIN
-                }
-                _ => {}
-            }
-            Filter { min_log_level, app_ids, ecu_ids, context_ids, app_id_count: a, context_id_count: c }
-        })
+            },
+        )
         .boxed()
 }
 
@@ -104,7 +121,13 @@ pub fn check(c: &Case) -> CheckResult {
 }
 
 pub fn strategy() -> impl Strategy<Value = Case> {
-    (any::<bool>(), filter()).prop_flat_map(|(storage, filter)| gb::hostile(storage).prop_map(move |buf| Case { buf, storage, filter: filter.clone() }))
+    (any::<bool>(), filter()).prop_flat_map(|(storage, filter)| {
+        gb::hostile(storage).prop_map(move |buf| Case {
+            buf,
+            storage,
+            filter: filter.clone(),
+        })
+    })
 }
 
 pub fn run(run: &Run) {
@@ -117,7 +140,13 @@ pub fn run(run: &Run) {
     );
     run.assume("the expected consumption is computed from the input bytes only (pattern search, LEN at offset 2, HTYP flags), no crate helper");
     run.regressions(&replay);
-    run.random("consumption", run.cases(300_000, 6_000_000), 0.15, strategy, check);
+    run.random(
+        "consumption",
+        run.cases(300_000, 6_000_000),
+        0.15,
+        strategy,
+        check,
+    );
 }
 
 pub fn replay(section: &str, case: &Json) -> Option<CheckResult> {
